@@ -390,7 +390,7 @@ theorem dispatching_kept (env : Env) (d : Desc) (n : Node) (it : Item) (hfix : n
   unfold dispatching
   simp only
   have ha := dispatchingAllowed_rt env d n
-  rcases ha.item it hg with ⟨ita, ga, ba, ea, ca, _, pa⟩
+  rcases ha.item it hg with ⟨ita, ga, ba, ea, ca, _, pa, _⟩
   have hnow : (dispatchingAllowed env d n).2.now = n.now := ha.only.env.now
   have hcfg : (dispatchingAllowed env d n).2.cfg = n.cfg := ha.only.env.cfg
   by_cases hal : (dispatchingAllowed env d n).1 = true
